@@ -311,10 +311,14 @@ def run(chk):
         "each of the 30 arms of Miniscript::lift is extracted symbolically (children as opaque lifted policies in "
         "pop order, knowing the iteration direction) and compared with the oracle up to commutativity; lift_check "
         "failure aborts the fold; tr/taptree/sh/wsh/pkh/wpkh/bare lifts and Concrete::lift are extracted the same "
-        "way. `normalized()` applied afterwards is C18's business.")
+        "way; (R07.4) `normalized()`, applied last by every lift, keeps the truth table on a bounded family (shared "
+        "with C18).")
     chk.trusted = ["spec/semantics.py", "model of the generic tree iterators", "factgen THIR; msverif.interp"]
     chk.assumptions = ["equivalence over all worlds beyond `same formula as the specification` is not decided",
                        "Semantic::normalized preserves meaning (C18, only partially decided)"]
     check_lift_table(chk, F)
     check_descriptor_lifts(chk, F)
     check_concrete_lift(chk, F)
+    # every lift ends with `.normalized()`: it must not change the meaning (rule shared with C18)
+    from . import c18
+    chk.guard("R07.4", "normalized", c18.check_normalized_small, chk, F, "R07.4")
